@@ -83,9 +83,24 @@ def run_impl(c):
         log.append('attempt:%d' % (len(creators) - 1))
         return d
     result = []
-    d = txtorcon.launch(reactor, progress_updates=lambda p, t, s: log.append('progress:%d' % p), control_port=9151, socks_port=9050,
-                        data_directory=user_dir, timeout=(30 if c['timeout'] else None), tor_binary='/bin/true',
-                        connection_creator=creator, kill_on_stderr=c['kill'])
+    cfg_dir = None
+    if c.get('cfg_dir') and not c['user_dir']:
+        # the deprecated launch_tor(config, …): the caller's own TorConfig names a (populated) DataDirectory, the ports travel on it too
+        cfg_dir = tempfile.mkdtemp(prefix='c19cfg')
+        with open(os.path.join(cfg_dir, 'state'), 'w') as f:
+            f.write('precious\n')
+        before = set(os.listdir(tempfile.gettempdir()))
+        config = txtorcon.TorConfig()
+        config.DataDirectory = cfg_dir
+        config.ControlPort = 9151
+        config.SocksPort = 9050
+        d = txtorcon.launch_tor(config, reactor, progress_updates=lambda p, t, s: log.append('progress:%d' % p),
+                                timeout=(30 if c['timeout'] else None), tor_binary='/bin/true', connection_creator=creator,
+                                kill_on_stderr=c['kill'])
+    else:
+        d = txtorcon.launch(reactor, progress_updates=lambda p, t, s: log.append('progress:%d' % p), control_port=9151, socks_port=9050,
+                            data_directory=user_dir, timeout=(30 if c['timeout'] else None), tor_binary='/bin/true',
+                            connection_creator=creator, kill_on_stderr=c['kill'])
     d.addCallbacks(lambda r: result.append('ok'), lambda f: result.append('fail') and None)
     pp = holder['pp']
     created = [p for p in set(os.listdir(tempfile.gettempdir())) - before if p.startswith('tortmp')]
@@ -178,10 +193,12 @@ def run_impl(c):
                     st.release(None, None)
         trace.append(snapshot())
     finally:
-        for p in (tmpdir, user_dir, user_parent):
+        cfg_kept = cfg_dir is None or os.path.isfile(os.path.join(cfg_dir, 'state'))
+        for p in (tmpdir, user_dir, user_parent, cfg_dir):
             if p and os.path.isdir(p):
                 shutil.rmtree(p, ignore_errors=True)
-    return {'steps': trace, 'launch': result[0] if result else 'pending', 'user_dir_kept': (user_dir is None) or state['user'] or False}
+    return {'steps': trace, 'launch': result[0] if result else 'pending',
+            'user_dir_kept': ((user_dir is None) or state['user'] or False) and cfg_kept}
 
 
 def driver_lines(c):
@@ -426,7 +443,7 @@ def run_cases(cases, drv, tier):
         reached = any(x.startswith('cmd:') for s in im['steps'] for x in s)
         decided = any(x in ('term', 'lose') or x.startswith(('fired', 'rmtree')) for s in im['steps'] for x in s) or im['launch'] != 'pending'
         res.append(Result(c, view, model, spec, corr_ok=corr_ok, prop_ok=prop_ok, in_h=True, nontrivial=(reached and decided),
-                          tags=kinds + (['when-from-callback'] if inserted else []) + ['launch=' + im['launch'], 'user-dir-fresh' if c['user_dir'] == 'fresh' else 'user-dir' if c['user_dir'] else 'temp-dir']))
+                          tags=kinds + (['when-from-callback'] if inserted else []) + ['launch=' + im['launch'], 'user-dir-fresh' if c['user_dir'] == 'fresh' else 'user-dir' if c['user_dir'] else 'temp-dir-via-launch_tor' if c.get('cfg_dir') else 'temp-dir']))
     return res
 
 
@@ -504,7 +521,9 @@ def gen_cases(rng, tier):
         for _ in range(rng.choice([0, 1, 1, 2])):
             seq.append(rng.choice([['exit', rng.choice([0, 1, None])], ['timeout'], ['prog', 0, 100]]))
             seq.append(['when', 'again'] if rng.random() < 0.4 else ['when'])
-        yield within_h({'user_dir': rng.choice([False, False, False, True, 'fresh']), 'timeout': rng.random() < 0.8, 'kill': rng.random() < 0.8, 'ops': seq})
+        ud = rng.choice([False, False, False, True, 'fresh'])
+        yield within_h({'user_dir': ud, 'timeout': rng.random() < 0.8, 'kill': rng.random() < 0.8, 'ops': seq,
+                        'cfg_dir': (not ud) and rng.random() < 0.4})
     if tier != 'quick':
         multiset = [['out', LINE], ['conn', 0, True], ['ack', 0, True], ['ack', 0, True], ['prog', 0, 100], ['timeout'], ['exit', 0], ['when']]
         seen = set()
